@@ -42,6 +42,7 @@ type Step struct {
 	WithCtx bool   `json:"withctx"` // stmt: the ...Ctx variant with the body's context
 	Variant int    `json:"variant"` // which of the equivalent entry points (QueryRow / QueryRowPartial / ...; nest flavour)
 	OnFail  string `json:"onfail"`  // stop (return the error) | ignore | panic
+	Wrap    bool   `json:"wrap"`    // stop: return fmt.Errorf("...: %w", err) instead of err itself
 	Inner   int    `json:"inner"`   // inner: thread run inline here (a transaction on the pool inside the body)
 }
 
@@ -52,6 +53,7 @@ type Thread struct {
 	Rewrap   bool   `json:"rewrap"`   // the body talks to the tx through sqlx.NewSessionFromTx(<its *sql.Tx>)
 	Steps    []Step `json:"steps"`
 	Fin      string `json:"fin"`      // nil | err | panic | goexit
+	FinVal   string `json:"finval"`   // err: which error value, "kind:mode" (default generic)
 	PanicVal string `json:"panicval"` // string | error | nil | struct | runtime
 	Inline   bool   `json:"inline"`   // only ever run from an "inner" step of another thread
 }
@@ -67,7 +69,10 @@ type Case struct {
 	Conns   []ConnSpec `json:"conns"`
 	Threads []Thread   `json:"threads"`
 	Sched   []int      `json:"sched"`
-	Oracle  []string   `json:"oracle"` // ok | fail | panic, one per driver call; "+c": the caller's context is cancelled during that call
+	// one reply per driver call: ok | fail | panic, "+c": the caller's context is cancelled during that
+	// call, ":kind:mode": the error value of a failure (kind generic | badconn | txdone | conndone | norows |
+	// canceled | deadline | skip | unavail | eof; mode bare | wrap | custom)
+	Oracle []string `json:"oracle"`
 }
 
 type ErrFacts struct {
@@ -79,9 +84,8 @@ type ErrFacts struct {
 	SameAsBody bool   `json:"same_as_body"`
 	Recover    bool   `json:"recover"`
 	TxFailed   bool   `json:"txfailed"`
-	Canceled   bool   `json:"canceled"`
-	TxDone     bool   `json:"txdone"`
 	NoConn     bool   `json:"noconn"`
+	Sent       []string `json:"sent"` // sentinel values the error matches through errors.Is
 	Nest       bool   `json:"nest"`
 	Text       string `json:"text"`
 }
@@ -106,7 +110,7 @@ type TOut struct {
 
 type Out struct {
 	ID      int     `json:"id"`
-	Log     [][]any `json:"log"` // [tid, conn, kind, k, outcome]
+	Log     [][]any `json:"log"` // [tid, conn, kind, k, outcome, value kind, value mode]
 	ESched  []int   `json:"esched"`
 	Threads []TOut  `json:"threads"`
 	Used    int     `json:"used"`  // driver calls made
@@ -122,6 +126,58 @@ var (
 	errUser     = errors.New("inj: body says no")
 	errOpen     = errors.New("inj: cannot open")
 )
+
+// ---- error values ---------------------------------------------------------------
+
+var sentinelNames = []string{"badconn", "txdone", "conndone", "norows", "canceled", "deadline", "skip", "unavail", "eof"}
+
+var sentinels = map[string]error{
+	"badconn": driver.ErrBadConn, "txdone": sql.ErrTxDone, "conndone": sql.ErrConnDone, "norows": sql.ErrNoRows,
+	"canceled": context.Canceled, "deadline": context.DeadlineExceeded, "skip": driver.ErrSkip,
+	"unavail": breaker.ErrServiceUnavailable, "eof": io.EOF,
+}
+
+// customErr matches its origin marker and a sentinel value through Is only.
+type customErr struct {
+	role     error
+	sentinel error
+}
+
+func (e customErr) Error() string { return "inj (custom): " + e.role.Error() + " / " + e.sentinel.Error() }
+func (e customErr) Is(target error) bool {
+	return target == e.role || target == e.sentinel
+}
+
+// mkErr builds the error value "kind:mode" for an injected failure whose origin marker is role.
+func mkErr(role error, kind, mode string) error {
+	sv, ok := sentinels[kind]
+	if !ok {
+		return role
+	}
+	switch mode {
+	case "wrap":
+		return fmt.Errorf("%w [%w]", role, sv)
+	case "custom":
+		return customErr{role: role, sentinel: sv}
+	}
+	return sv
+}
+
+func splitVal(s string) (kind, mode string) {
+	kind, mode = "generic", "bare"
+	if s == "" {
+		return
+	}
+	parts := strings.Split(s, ":")
+	kind = parts[0]
+	if len(parts) > 1 {
+		mode = parts[1]
+	}
+	if _, ok := sentinels[kind]; !ok {
+		kind, mode = "generic", "bare"
+	}
+	return
+}
 
 type customPanic struct {
 	A int
@@ -140,6 +196,8 @@ type plan struct {
 	stmtErr map[string]error
 	fail    string
 	cancel  func(tid int) // cancels the context of that thread's TransactCtx call
+	failed  bool          // a driver call has failed since the flag was last cleared
+	lastVal []string      // ... with this error value (kind, mode)
 }
 
 var curPlan atomic.Pointer[plan]
@@ -153,10 +211,18 @@ func (p *plan) next() string {
 	return "ok"
 }
 
-// call logs one driver call and returns its scripted outcome. A scripted panic is
-// honoured by Commit / Rollback only; everywhere else it is an ordinary failure.
-func (p *plan) call(conn int, kind string, k int) string {
-	o := p.next()
+// call logs one driver call and returns its scripted outcome and, for a failure, the error
+// value built around the origin marker role. A scripted panic is honoured by Commit / Rollback
+// only; everywhere else it is an ordinary failure. Two values are not used where database/sql
+// would answer them with driver calls of its own: ErrBadConn from Stmt.Exec (it repeats the
+// call), the bare ErrSkip from ExecContext / QueryContext (it prepares the statement).
+func (p *plan) call(conn int, kind string, k int, role error) (string, error) {
+	rep := p.next()
+	val := ""
+	if i := strings.IndexByte(rep, ':'); i >= 0 {
+		rep, val = rep[:i], rep[i+1:]
+	}
+	o := rep
 	if strings.HasSuffix(o, "+c") {
 		o = strings.TrimSuffix(o, "+c")
 		if kind != "query" && p.cancel != nil {
@@ -166,8 +232,22 @@ func (p *plan) call(conn int, kind string, k int) string {
 	if o == "panic" && kind != "commit" && kind != "rollback" {
 		o = "fail"
 	}
-	p.log = append(p.log, []any{p.cur, conn, kind, k, o})
-	return o
+	vk, vm := "generic", "bare"
+	var err error
+	if o == "fail" {
+		vk, vm = splitVal(val)
+		if kind == "stmtexec" && vk == "badconn" {
+			vk, vm = "generic", "bare"
+		}
+		if (kind == "exec" || kind == "query") && vk == "skip" && vm == "bare" {
+			vm = "wrap"
+		}
+		err = mkErr(role, vk, vm)
+		p.failed = true
+		p.lastVal = []string{vk, vm}
+	}
+	p.log = append(p.log, []any{p.cur, conn, kind, k, o, vk, vm})
+	return o, err
 }
 
 func (p *plan) stmtError(tid, k int) error {
@@ -220,8 +300,8 @@ func (c *fconn) Begin() (driver.Tx, error) {
 	if !p.armed {
 		return nil, errBegin
 	}
-	if p.call(c.id, "begin", -1) != "ok" {
-		return nil, errBegin
+	if o, err := p.call(c.id, "begin", -1, errBegin); o != "ok" {
+		return nil, err
 	}
 	return &ftx{c: c}, nil
 }
@@ -236,8 +316,8 @@ func (c *fconn) stmt(kind, q string) error {
 	if tid != p.cur {
 		p.fail = fmt.Sprintf("statement %q issued while thread %d was running", q, p.cur)
 	}
-	if p.call(c.id, kind, k) != "ok" {
-		return p.stmtError(tid, k)
+	if o, err := p.call(c.id, kind, k, p.stmtError(tid, k)); o != "ok" {
+		return err
 	}
 	return nil
 }
@@ -294,13 +374,14 @@ func (r *frows) Next(dest []driver.Value) error {
 type ftx struct{ c *fconn }
 
 func (t *ftx) end(kind string, e error) error {
-	switch t.c.p.call(t.c.id, kind, -1) {
+	o, err := t.c.p.call(t.c.id, kind, -1, e)
+	switch o {
 	case "ok":
 		return nil
 	case "panic":
 		panic("inj: driver " + kind + " panics")
 	}
-	return e
+	return err
 }
 func (t *ftx) Commit() error   { return t.end("commit", errCommit) }
 func (t *ftx) Rollback() error { return t.end("rollback", errRollback) }
@@ -523,9 +604,12 @@ func (r *runner) finish(t int) {
 	f.Begin = errors.Is(err, errBegin)
 	f.Commit = errors.Is(err, errCommit)
 	f.Rollback = errors.Is(err, errRollback)
-	f.Canceled = errors.Is(err, context.Canceled)
-	f.TxDone = errors.Is(err, sql.ErrTxDone)
 	f.NoConn = errors.Is(err, errOpen)
+	for _, name := range sentinelNames {
+		if errors.Is(err, sentinels[name]) {
+			f.Sent = append(f.Sent, name)
+		}
+	}
 	f.Nest = msg == "cannot nest transactions"
 	f.SameAsBody = th.bodyRet != nil && err == th.bodyRet
 	f.Recover = strings.HasPrefix(msg, "recover from ")
@@ -659,6 +743,7 @@ func (r *runner) body(t int) func(context.Context, sqlx.Session) error {
 		}
 		for k, st := range sp.Steps {
 			r.gate(t)
+			r.p.failed = false
 			var err error
 			switch st.Act {
 			case "stmt":
@@ -682,18 +767,25 @@ func (r *runner) body(t int) func(context.Context, sqlx.Session) error {
 			switch st.OnFail {
 			case "stop":
 				switch {
+				case r.p.failed && st.Act == "selfcommit":
+					out.Body = []any{"selfc", k, r.p.lastVal[0], r.p.lastVal[1]}
+				case r.p.failed && st.Act == "selfrollback":
+					out.Body = []any{"selfr", k, r.p.lastVal[0], r.p.lastVal[1]}
+				case r.p.failed:
+					// the driver failed the step
+					out.Body = []any{"stmt", k, r.p.lastVal[0], r.p.lastVal[1]}
 				case errors.Is(err, context.Canceled):
+					// refused by database/sql before the driver
 					out.Body = []any{"ctx", k}
 				case errors.Is(err, sql.ErrTxDone):
 					out.Body = []any{"txdone", k}
-				case errors.Is(err, errCommit):
-					out.Body = []any{"selfc", k}
-				case errors.Is(err, errRollback):
-					out.Body = []any{"selfr", k}
-				case strings.Contains(err.Error(), "cannot nest transactions"):
+				case err.Error() == "cannot nest transactions":
 					out.Body = []any{"nest", k}
 				default:
-					out.Body = []any{"stmt", k}
+					out.Body = []any{"unexpected", k}
+				}
+				if st.Wrap {
+					err = fmt.Errorf("step %d: %w", k, err)
 				}
 				th.bodyRet = err
 				return err
@@ -706,8 +798,9 @@ func (r *runner) body(t int) func(context.Context, sqlx.Session) error {
 		switch sp.Fin {
 		case "err":
 			out.Body = []any{"user"}
-			th.bodyRet = errUser
-			return errUser
+			vk, vm := splitVal(sp.FinVal)
+			th.bodyRet = mkErr(errUser, vk, vm)
+			return th.bodyRet
 		case "panic":
 			out.Body = []any{"panic"}
 			switch sp.PanicVal {
